@@ -226,6 +226,19 @@ func c10Prepare(t fataler, root string, initial, target string, oldSpec *specs.S
 		s.oldBytes, _ = os.ReadFile(filepath.Join(dir, target))
 		s.oldImage = specImage(oldSpec)
 	}
+	if initial == "old-file-is-symlink" {
+		// the previous Spec file is a symbolic link to a file kept elsewhere: publishing replaces the link
+		elsewhere := filepath.Join(root, "elsewhere")
+		_ = os.RemoveAll(elsewhere)
+		_ = os.MkdirAll(elsewhere, 0o755)
+		real := filepath.Join(elsewhere, "kept-"+filepath.Base(target))
+		if err := os.Rename(filepath.Join(dir, target), real); err != nil {
+			t.Fatalf("VERIF-HARNESS %v", err)
+		}
+		if err := os.Symlink(real, filepath.Join(dir, target)); err != nil {
+			t.Fatalf("VERIF-HARNESS %v", err)
+		}
+	}
 	if initial == "old-file-and-bystander" {
 		b := []byte(`{"cdiVersion":"0.3.0","kind":"bystander.org/thing","devices":[{"name":"z","containerEdits":{"env":["Z=1"]}}]}`)
 		_ = os.WriteFile(filepath.Join(dir, "bystander.json"), b, 0o644)
@@ -285,7 +298,7 @@ func TestC10Syscalls(t *testing.T) {
 	rapid.Check(t, func(t *rapid.T) {
 		newSpec, oldSpec := c10Specs(t)
 		enc := rapid.SampledFrom([]string{".json", ".yaml"}).Draw(t, "encoding")
-		initial := rapid.SampledFrom([]string{"no-dir", "empty-dir", "old-file", "old-file", "old-file-and-bystander"}).Draw(t, "initial")
+		initial := rapid.SampledFrom([]string{"no-dir", "empty-dir", "old-file", "old-file", "old-file-and-bystander", "old-file-is-symlink"}).Draw(t, "initial")
 		target := c10Target(t, enc)
 		root := filepath.Join(tl.work, "case")
 		_ = os.RemoveAll(root)
@@ -436,7 +449,7 @@ func TestC10WriteOffsets(t *testing.T) {
 		every := stride
 		newSpec, oldSpec := c10Specs(t)
 		enc := rapid.SampledFrom([]string{".json", ".yaml"}).Draw(t, "encoding")
-		initial := rapid.SampledFrom([]string{"empty-dir", "old-file", "old-file-and-bystander"}).Draw(t, "initial")
+		initial := rapid.SampledFrom([]string{"empty-dir", "old-file", "old-file-and-bystander", "old-file-is-symlink"}).Draw(t, "initial")
 		target := c10Target(t, enc)
 		root := filepath.Join(tl.work, "ocase")
 		_ = os.RemoveAll(root)
@@ -499,7 +512,7 @@ func TestC10Events(t *testing.T) {
 		seq++
 		newSpec, oldSpec := c10Specs(t)
 		enc := rapid.SampledFrom([]string{".json", ".yaml", ""}).Draw(t, "encoding")
-		initial := rapid.SampledFrom([]string{"empty-dir", "old-file", "old-file-and-bystander"}).Draw(t, "initial")
+		initial := rapid.SampledFrom([]string{"empty-dir", "old-file", "old-file-and-bystander", "old-file-is-symlink"}).Draw(t, "initial")
 		name := c10Target(t, enc)
 		target := name
 		if e := filepath.Ext(name); e != ".json" && e != ".yaml" {
